@@ -28,7 +28,8 @@ def longest_prefix(scratch, module, cfg, trace, timeout=300):
     lo, hi = 0, len(trace['events'])
     while lo < hi:
         mid = (lo + hi + 1) // 2
-        t = {'id': trace['id'], 'events': trace['events'][:mid]}
+        t = dict(trace)     # header fields of the trace (scenario bindings) stay
+        t['events'] = trace['events'][:mid]
         _r, acc, _rej = validate(scratch, module, cfg, [t], timeout)
         if acc:
             lo = mid
